@@ -1,0 +1,81 @@
+use super::indexes::INDEX_SIZE;
+use crate::streaming::batching::message_batch::RETAINED_BATCH_HEADER_LEN;
+use std::fs::OpenOptions;
+use std::os::unix::fs::FileExt;
+use tracing::warn;
+
+/// After an unclean shutdown the log and the index of a segment can disagree: the log may end with
+/// batches that were never indexed (or with a partially written batch), and the index may end with
+/// records whose batch never reached the log (or with a partially written record).
+/// A batch is part of the segment only when both its log bytes and its index record are complete:
+/// trailing index records without a complete batch are dropped, complete batches beyond the index
+/// are indexed, and a partially written tail of the log is cut off.
+pub(crate) fn reconcile_log_and_index(
+    log_path: &str,
+    index_path: &str,
+    start_offset: u64,
+) -> std::io::Result<()> {
+    let log = OpenOptions::new().read(true).write(true).open(log_path)?;
+    let index = OpenOptions::new()
+        .read(true)
+        .write(true)
+        .create(true)
+        .truncate(false)
+        .open(index_path)?;
+    let log_size = log.metadata()?.len();
+    let index_size = index.metadata()?.len();
+
+    // End position, relative last offset and max timestamp of the complete batch at `position`.
+    let batch_at = |position: u64| -> Option<(u64, u32, u64)> {
+        if position + RETAINED_BATCH_HEADER_LEN > log_size {
+            return None;
+        }
+        let mut header = [0u8; RETAINED_BATCH_HEADER_LEN as usize];
+        log.read_exact_at(&mut header, position).ok()?;
+        let base_offset = u64::from_le_bytes(header[0..8].try_into().ok()?);
+        let length = u32::from_le_bytes(header[8..12].try_into().ok()?);
+        let last_offset_delta = u32::from_le_bytes(header[12..16].try_into().ok()?);
+        let max_timestamp = u64::from_le_bytes(header[16..24].try_into().ok()?);
+        let end = position + RETAINED_BATCH_HEADER_LEN + length as u64;
+        if end > log_size {
+            return None;
+        }
+        let relative_offset = (base_offset + last_offset_delta as u64).checked_sub(start_offset)?;
+        Some((end, relative_offset as u32, max_timestamp))
+    };
+
+    let mut entries = index_size / INDEX_SIZE;
+    let mut indexed_end = 0;
+    while entries > 0 {
+        let mut record = [0u8; INDEX_SIZE as usize];
+        index.read_exact_at(&mut record, (entries - 1) * INDEX_SIZE)?;
+        let position = u32::from_le_bytes(record[4..8].try_into().unwrap()) as u64;
+        if let Some((end, _, _)) = batch_at(position) {
+            indexed_end = end;
+            break;
+        }
+        entries -= 1;
+    }
+    if entries * INDEX_SIZE != index_size {
+        warn!("Dropping index records without a complete batch in: {index_path}");
+        index.set_len(entries * INDEX_SIZE)?;
+    }
+
+    let mut position = indexed_end;
+    while let Some((end, relative_offset, max_timestamp)) = batch_at(position) {
+        warn!("Indexing a batch found beyond the index at position: {position} in: {log_path}");
+        let mut record = [0u8; INDEX_SIZE as usize];
+        record[0..4].copy_from_slice(&relative_offset.to_le_bytes());
+        record[4..8].copy_from_slice(&(position as u32).to_le_bytes());
+        record[8..16].copy_from_slice(&max_timestamp.to_le_bytes());
+        index.write_all_at(&record, entries * INDEX_SIZE)?;
+        entries += 1;
+        position = end;
+    }
+    if position < log_size {
+        warn!("Cutting off a partially written batch at position: {position} in: {log_path}");
+        log.set_len(position)?;
+    }
+
+    Ok(())
+}
